@@ -250,7 +250,7 @@ func c19ConnectSpace(c *explore.Ctx, hash string) {
 
 // ---- (2) account histories
 
-var c19Ops = []string{"Update(u3,p3)", "Update(u1,q1)", "Delete(u2)", "Delete(u3)", "restart"}
+var c19Ops = []string{"Update(u3,p3)", "Update(u1,q1)", "Delete(u2)", "Delete(u3)", "restart", "restart with the next hash algorithm configured"}
 
 func c19History(c *explore.Ctx, hash string, relative bool, seq []int) int {
 	names := func() []string {
@@ -264,6 +264,8 @@ func c19History(c *explore.Ctx, hash string, relative bool, seq []int) int {
 		return map[string]any{"part": "account-history", "hash": hash, "relative_password_file": relative, "ops": names()}
 	}
 	ref := map[string]string{"u1": "p1", "u2": "p2"}
+	algoOf := map[string]string{"u1": hash, "u2": hash} // algorithm under which each stored hash was written
+	cur := hash
 	dir, cleanup := c19Dir(c, hash, ref)
 	defer cleanup()
 	applied := 0
@@ -281,13 +283,18 @@ func c19History(c *explore.Ctx, hash string, relative bool, seq []int) int {
 				u := pr[0]
 				ack := x.Connect(harness.ConnectOpts{ClientID: fmt.Sprintf("p%d", n), Clean: true, Version: refmqtt.V311, Username: &u, Password: []byte(pr[1])})
 				want := ref[pr[0]] == pr[1]
+				if _, stored := ref[pr[0]]; stored && algoOf[pr[0]] != cur {
+					// the stored string was written under another algorithm: it is compared as it is
+					onDisk, _ := c19ReadFile(dir)
+					want = c19Matches(cur, onDisk[pr[0]], pr[1])
+				}
 				got := ack != nil && ack.Code == 0
 				x.Close()
 				vsched.Settle()
 				if got != want {
-					cl := "stale-credentials-accepted-after-" + step
+					cl := "stale-credentials-accepted-after-" + strings.SplitN(step, " ", 2)[0]
 					if want {
-						cl = "new-credentials-refused-after-" + step
+						cl = "new-credentials-refused-after-" + strings.SplitN(step, " ", 2)[0]
 					}
 					c.Violate("accounts", cl, cas(), fmt.Sprintf("%s/%s accepted=%v", pr[0], pr[1], want), fmt.Sprint(ack))
 					return false
@@ -314,23 +321,31 @@ func c19History(c *explore.Ctx, hash string, relative bool, seq []int) int {
 			switch e {
 			case 0:
 				_, err = a.Update(context.Background(), &auth.UpdateAccountRequest{Username: "u3", Password: "p3"})
-				ref["u3"] = "p3"
+				ref["u3"], algoOf["u3"] = "p3", cur
 			case 1:
 				_, err = a.Update(context.Background(), &auth.UpdateAccountRequest{Username: "u1", Password: "q1"})
-				ref["u1"] = "q1"
+				ref["u1"], algoOf["u1"] = "q1", cur
 			case 2:
 				_, err = a.Delete(context.Background(), &auth.DeleteAccountRequest{Username: "u2"})
 				delete(ref, "u2")
 			case 3:
 				_, err = a.Delete(context.Background(), &auth.DeleteAccountRequest{Username: "u3"})
 				delete(ref, "u3")
-			case 4:
+			case 4, 5:
+				if e == 5 {
+					for i, h := range c19Hashes {
+						if h == cur {
+							cur = c19Hashes[(i+1)%len(c19Hashes)]
+							break
+						}
+					}
+				}
 				w.Stop()
 				if !w.StopDone {
 					c.Violate("restart", "stop-did-not-return", cas(), "Stop returns", fmt.Sprint(vsched.ThreadsParked()))
 					return
 				}
-				w = c19Boot(c, dir, hash, relative)
+				w = c19Boot(c, dir, cur, relative)
 				if w.InitErr != nil {
 					c.Violate("restart", "restart-fails-on-saved-password-file", cas(), "Init succeeds", w.InitErr.Error())
 					return
@@ -346,11 +361,11 @@ func c19History(c *explore.Ctx, hash string, relative bool, seq []int) int {
 				return
 			}
 			// the file on disk is what a restarted broker loads
-			if e != 4 {
+			if e < 4 {
 				onDisk, ferr := c19ReadFile(dir)
 				bad := ferr != nil || len(onDisk) != len(ref)
 				for u, pw := range ref {
-					if st, ok := onDisk[u]; !ok || !c19Matches(hash, st, pw) {
+					if st, ok := onDisk[u]; !ok || !c19Matches(algoOf[u], st, pw) {
 						bad = true
 					}
 				}
@@ -508,7 +523,7 @@ func c19PreAuth(c *explore.Ctx, ws bool, afterFailedConnect bool, ver byte, seq 
 
 func runC19(c *explore.Ctx) {
 	c.Level = "model_checking"
-	c.Rule = "E2: (connect space) for each of the 4 hash algorithms: version {3.1,3.1.1,5} x user name {absent,\"\",u1,U1,\"u1 \",u2,unknown,65535 bytes} x password {absent,\"\",p1,p1x,p2,hash(p1),65535 bytes} x v5 {no auth props, AuthMethod, AuthMethod+AuthData, empty AuthMethod}: CONNACK success iff the user name is a stored account and the password matches its stored hash; refused connects leave no client/session. (account histories) every sequence of <=3 (thorough 4) of {Update new, Update change, Delete, Delete, restart broker} x hash x absolute/relative password file, probing 4 credential pairs after every step and parsing the file on disk. (pre-auth traffic) every sequence of <=2 packets of 8 kinds before CONNECT and after a failed CONNECT, v3.1.1/v5, TCP and WebSocket listener: ClientService/SubscriptionService/RetainedService unchanged, an authenticated '#' bystander receives nothing, no reply other than a failing CONNACK/DISCONNECT."
+	c.Rule = "E2: (connect space) for each of the 4 hash algorithms: version {3.1,3.1.1,5} x user name {absent,\"\",u1,U1,\"u1 \",u2,unknown,65535 bytes} x password {absent,\"\",p1,p1x,p2,hash(p1),65535 bytes} x v5 {no auth props, AuthMethod, AuthMethod+AuthData, empty AuthMethod}: CONNACK success iff the user name is a stored account and the password matches its stored hash; refused connects leave no client/session. (account histories) every sequence of <=3 (thorough 4) of {Update new, Update change, Delete, Delete, restart broker, restart broker with the next hash algorithm configured} x hash x absolute/relative password file, probing 4 credential pairs after every step and parsing the file on disk. (pre-auth traffic) every sequence of <=2 packets of 8 kinds before CONNECT and after a failed CONNECT, v3.1.1/v5, TCP and WebSocket listener: ClientService/SubscriptionService/RetainedService unchanged, an authenticated '#' bystander receives nothing, no reply other than a failing CONNACK/DISCONNECT."
 	c.Trusted = []string{"vsched default schedule, memconn; the websocket handler is driven through a fake hijackable ResponseWriter", "refmqtt codec", "reference hashing with the Go standard library / x/crypto bcrypt"}
 	if rc := replayCase(c); rc != nil {
 		c.Fatal("C19 replay: re-run ./run.sh C19 quick (%v)", rc)
